@@ -126,7 +126,20 @@ TBat ==
   /\ scribbled' = FALSE
   /\ UNCHANGED <<inst, pool, pc, last>>
 
-TNext == UNCHANGED iters /\ (TCase \/ TPool \/ TInst \/ TUnm \/ TReset \/ TMarshal \/ TScribble \/ TBat)
+\* building neither modifies the caller's key slice, value slice nor option struct
+\* (nor the booleans its pointers point to)
+TNewMem ==
+  /\ Ev("newmem")
+  /\ LET e == Trace[l] IN
+     Report(l, "P:C20:build-args",
+            (IF e.pan # "" THEN {"panic"} ELSE {})
+            \cup (IF e.keys # 1 THEN {"keys-modified"} ELSE {})
+            \cup (IF e.vals # 1 THEN {"values-modified"} ELSE {})
+            \cup (IF e.optptrs # 1 THEN {"option-pointers-modified"} ELSE {})
+            \cup (IF e.optvals # 1 THEN {"option-values-modified"} ELSE {}))
+  /\ UNCHANGED <<inst, pool, pc, last, lastbat, scribbled>>
+
+TNext == UNCHANGED iters /\ (TNewMem \/ TCase \/ TPool \/ TInst \/ TUnm \/ TReset \/ TMarshal \/ TScribble \/ TBat)
 
 Accepted == TLCGet("stats").diameter - 1 = Len(Trace)
 =============================================================================
